@@ -8,6 +8,13 @@
   `decode_gate`, `reconstruct_gate`
                          one unacceptable header among the supplied fragments makes decode /
                          reconstruct fail with EBADHEADER before any field is used;
+  `decode_length_gate`, `reconstruct_length_gate`
+                         the same loop refuses, with the same EBADHEADER, a fragment whose header
+                         announces more bytes (payload size + backend metadata size, the raw
+                         host-order fields) than the declared fragment length can hold after the
+                         80 header bytes (`fragExceedsLength`), whatever else is supplied;
+  `fresh_fits`           a fragment written by encode never trips that test for the declared
+                         length 80 + block size (nor any larger one, `fresh_fits_of_le`);
   `decode_host_order`, `reconstruct_host_order`
                          an accepted header in the opposite byte order still makes decode
                          (without forced checks) and reconstruct fail with EBADHEADER;
@@ -89,11 +96,20 @@ theorem decode_gate (env : Env) (be : Backend) (i : Inst) (frags : List Bytes) (
     (hbad : ∃ f ∈ frags, ¬ RefAccept f) :
     decode env be i frags fragLen force = .error (.rc (-EBADHEADER)) := by
   obtain ⟨f, hf, hr⟩ := hbad
-  have hany : frags.any isInvalidHeader = true :=
-    List.any_eq_true.mpr ⟨f, hf, (reject_iff f).mpr hr⟩
-  unfold decode
-  simp only [show ¬ frags.length < i.k from by omega, show ¬ fragLen < Hdr.size from by simp [Hdr.size]; omega,
-    hany, if_true, if_false, failRc]
+  have hany : frags.any (gateBad fragLen) = true :=
+    List.any_eq_true.mpr ⟨f, hf, by simp [gateBad, (reject_iff f).mpr hr]⟩
+  exact decode_gate_fail env be i frags fragLen force hn (by simp [Hdr.size]; omega) hany
+
+/-- decode: a supplied fragment whose header announces more bytes than the declared fragment
+    length holds ⇒ EBADHEADER (same loop, same code; after the count and length checks). -/
+theorem decode_length_gate (env : Env) (be : Backend) (i : Inst) (frags : List Bytes) (fragLen : Nat)
+    (force : Bool) (hn : i.k ≤ frags.length) (hl : Hdr.size ≤ fragLen)
+    (hbad : ∃ f ∈ frags, fragExceedsLength f fragLen = true) :
+    decode env be i frags fragLen force = .error (.rc (-EBADHEADER)) := by
+  obtain ⟨f, hf, hr⟩ := hbad
+  have hany : frags.any (gateBad fragLen) = true :=
+    List.any_eq_true.mpr ⟨f, hf, by simp [gateBad, hr]⟩
+  exact decode_gate_fail env be i frags fragLen force hn hl hany
 
 /-- reconstruct: any unacceptable header ⇒ EBADHEADER (for an in-range destination). -/
 theorem reconstruct_gate (env : Env) (be : Backend) (i : Inst) (frags : List Bytes) (fragLen : Nat)
@@ -101,13 +117,28 @@ theorem reconstruct_gate (env : Env) (be : Backend) (i : Inst) (frags : List Byt
     (hbad : ∃ f ∈ frags, ¬ RefAccept f) :
     reconstruct env be i frags fragLen dest = .error (.rc (-EBADHEADER)) := by
   obtain ⟨f, hf, hr⟩ := hbad
-  have hany : frags.any isInvalidHeader = true :=
-    List.any_eq_true.mpr ⟨f, hf, (reject_iff f).mpr hr⟩
-  unfold reconstruct
-  have h1 : (decide (dest < 0) || decide (dest ≥ ((i.k + i.m : Nat) : Int))) = false := by
-    simp; omega
-  simp only [h1, Bool.false_eq_true, if_false, hany, if_true, failRc,
-    show ¬ fragLen < Hdr.size from by simp [Hdr.size]; omega]
+  have hany : frags.any (gateBad fragLen) = true :=
+    List.any_eq_true.mpr ⟨f, hf, by simp [gateBad, (reject_iff f).mpr hr]⟩
+  exact reconstruct_gate_fail env be i frags fragLen dest hd (by simp [Hdr.size]; omega) hany
+
+/-- reconstruct: a supplied fragment whose header announces more bytes than the declared fragment
+    length holds ⇒ EBADHEADER (for an in-range destination). -/
+theorem reconstruct_length_gate (env : Env) (be : Backend) (i : Inst) (frags : List Bytes) (fragLen : Nat)
+    (dest : Int) (hd : 0 ≤ dest ∧ dest < ((i.k + i.m : Nat) : Int)) (hl : Hdr.size ≤ fragLen)
+    (hbad : ∃ f ∈ frags, fragExceedsLength f fragLen = true) :
+    reconstruct env be i frags fragLen dest = .error (.rc (-EBADHEADER)) := by
+  obtain ⟨f, hf, hr⟩ := hbad
+  have hany : frags.any (gateBad fragLen) = true :=
+    List.any_eq_true.mpr ⟨f, hf, by simp [gateBad, hr]⟩
+  exact reconstruct_gate_fail env be i frags fragLen dest hd hl hany
+
+/-- what the length test says, in numbers: with at least a header declared, a fragment passes
+    exactly when header, announced payload and announced backend metadata fit the declared length. -/
+theorem fits_iff (f : Bytes) (fragLen : Nat) (hl : Hdr.size ≤ fragLen) :
+    fragExceedsLength f fragLen = false ↔ Hdr.size + fSize f + fBmSize f ≤ fragLen := by
+  unfold fragExceedsLength
+  simp only [decide_eq_false_iff_not]
+  omega
 
 /-! ### host byte order -/
 
@@ -164,7 +195,7 @@ theorem reconstruct_host_order (env : Env) (be : Backend) (i : Inst) (frags : Li
     by_cases h3 : fragLen < Hdr.size
     · rw [if_pos h3]; exact ⟨_, rfl, Or.inl rfl⟩
     · rw [if_neg h3]
-      by_cases h2 : frags.any isInvalidHeader = true
+      by_cases h2 : frags.any (gateBad fragLen) = true
       · rw [if_pos h2]; exact ⟨_, rfl, Or.inl rfl⟩
       · rw [if_neg h2]
         rw [partition_nonnative i.k i.m frags h]
@@ -271,7 +302,7 @@ theorem decode_host_order' (env : Env) (be : Backend) (i : Inst) (frags : List B
     by_cases h2 : fragLen < Hdr.size
     · simp only [h2, if_true]
     · simp only [h2, if_false]
-      by_cases h3 : frags.any isInvalidHeader = true
+      by_cases h3 : frags.any (gateBad fragLen) = true
       · simp only [h3, if_true]
       · simp only [h3, Bool.false_and, Bool.false_eq_true, if_false]
         exact decodeTail_nonnative env be i frags fragLen h
@@ -303,24 +334,24 @@ theorem filter_valid_native (env : Env) (be : Backend) (i : Inst) (frags : List 
   · simp [isInvalidFragment_nonnative env be i f hm]
 
 /-- **decode with forced checks**: fragments that are not in host byte order are dropped silently
-    instead of being reported — a forced decode (with acceptable headers, at least `k` fragments
+    instead of being reported — a forced decode (with headers that pass the header loop, at least `k` fragments
     and a declared length of at least a header) is the forced decode of the host-order fragments
     alone, and EINSUFFFRAGS when fewer than `k` of those remain.  So EBADHEADER is *not* the answer
     here: the same opposite-order fragment that makes an unforced decode fail is ignored by a forced
     one.  (`hl` and `hh` cannot be dropped: without them the left side is EBADHEADER while the right
     side may be EINSUFFFRAGS or a decode of a list from which the offending header was removed.) -/
 theorem decode_host_order_forced (env : Env) (be : Backend) (i : Inst) (frags : List Bytes) (fragLen : Nat)
-    (hn : i.k ≤ frags.length) (hl : 80 ≤ fragLen) (hh : frags.any isInvalidHeader = false) :
+    (hn : i.k ≤ frags.length) (hl : 80 ≤ fragLen) (hh : frags.any (gateBad fragLen) = false) :
     decode env be i frags fragLen true =
       (if (frags.filter (fun f => fMagic f == magicC)).length < i.k
        then .error (.rc (-EINSUFFFRAGS))
        else decode env be i (frags.filter (fun f => fMagic f == magicC)) fragLen true) := by
-  have hh' : (frags.filter (fun f => fMagic f == magicC)).any isInvalidHeader = false := by
-    cases hc : (frags.filter (fun f => fMagic f == magicC)).any isInvalidHeader with
+  have hh' : (frags.filter (fun f => fMagic f == magicC)).any (gateBad fragLen) = false := by
+    cases hc : (frags.filter (fun f => fMagic f == magicC)).any (gateBad fragLen) with
     | false => rfl
     | true =>
       obtain ⟨g, hg, hi⟩ := List.any_eq_true.mp hc
-      have : frags.any isInvalidHeader = true :=
+      have : frags.any (gateBad fragLen) = true :=
         List.any_eq_true.mpr ⟨g, (List.mem_filter.mp hg).1, hi⟩
       rw [hh] at this; cases this
   rw [decode_forced_filter env be i frags fragLen hn hl hh]
@@ -336,7 +367,7 @@ theorem decode_host_order_forced (env : Env) (be : Backend) (i : Inst) (frags : 
     outcome of an unforced decode of fragments that are all in host byte order. -/
 theorem decode_host_order_forced_cases (env : Env) (be : Backend) (i : Inst) (frags : List Bytes)
     (fragLen : Nat) (hn : i.k ≤ frags.length) (hl : 80 ≤ fragLen)
-    (hh : frags.any isInvalidHeader = false) :
+    (hh : frags.any (gateBad fragLen) = false) :
     decode env be i frags fragLen true = .error (.rc (-EINSUFFFRAGS)) ∨
     ∃ frags', (∀ f ∈ frags', f ∈ frags ∧ fMagic f = magicC) ∧ i.k ≤ frags'.length ∧
       decode env be i frags fragLen true = decode env be i frags' fragLen false := by
@@ -403,6 +434,23 @@ theorem fresh_accepted (env : Env) (i : Inst) (idx orig bs : Nat) (p : Bytes)
   unfold crcWrite
   cases env.legacy <;> simp
 
+/-- every fragment written by `add_fragment_metadata` around a payload of `bs` bytes passes the whole
+    test of the header loop of decode / reconstruct for the declared length `80 + bs`: its header is
+    accepted and it announces `bs` payload bytes and no backend metadata. -/
+theorem fresh_fits (env : Env) (i : Inst) (idx orig bs : Nat) (p : Bytes)
+    (h1 : idx < 2 ^ 32) (h2 : orig < 2 ^ 64) (h3 : bs < 2 ^ 32) (h4 : i.ct < 256) (h5 : i.beId < 256)
+    (h6 : i.beVer < 2 ^ 32) (h7 : env.libver < 2 ^ 32) (h8 : env.libver ≠ 0) :
+    gateBad (Hdr.size + bs) ((specHeader env i idx orig bs p).bytes ++ p) = false :=
+  fresh_gate env i idx orig bs p ⟨h1, h2, h3, h4, h5, h6, h7, h8⟩ _ (Nat.le_refl _)
+
+/-- … and for every larger declared length. -/
+theorem fresh_fits_of_le (env : Env) (i : Inst) (idx orig bs : Nat) (p : Bytes)
+    (h1 : idx < 2 ^ 32) (h2 : orig < 2 ^ 64) (h3 : bs < 2 ^ 32) (h4 : i.ct < 256) (h5 : i.beId < 256)
+    (h6 : i.beVer < 2 ^ 32) (h7 : env.libver < 2 ^ 32) (h8 : env.libver ≠ 0)
+    (fragLen : Nat) (hl : Hdr.size + bs ≤ fragLen) :
+    gateBad fragLen ((specHeader env i idx orig bs p).bytes ++ p) = false :=
+  fresh_gate env i idx orig bs p ⟨h1, h2, h3, h4, h5, h6, h7, h8⟩ fragLen hl
+
 /-- the CRC table in the C source is the table of the polynomial. -/
 theorem crc_table : LecGen.crc32Tab = crcTable := by decide +kernel
 
@@ -412,6 +460,16 @@ example :
     let env : Env := { libver := 0x010604, legacy := false }
     let f := (specHeader env i 1 5 4 [1, 2, 3, 4]).bytes ++ [1, 2, 3, 4]
     isInvalidHeader f = false ∧ isInvalidHeader (f.set 0 0) = true := by
+  decide +kernel
+
+/-- non-vacuity of the length test: the same fresh fragment (4 payload bytes) passes the header loop
+    for a declared length of 84 and trips `fragExceedsLength` for 83, although its header is
+    accepted. -/
+example :
+    let i : Inst := { beId := 6, beVer := 0x010000, k := 2, m := 1, w := 16, ct := 2 }
+    let env : Env := { libver := 0x010604, legacy := false }
+    let f := (specHeader env i 1 5 4 [1, 2, 3, 4]).bytes ++ [1, 2, 3, 4]
+    gateBad 84 f = false ∧ isInvalidHeader f = false ∧ fragExceedsLength f 83 = true := by
   decide +kernel
 
 /-- result tests for the examples (`R Bytes` has no decidable equality). -/
@@ -435,18 +493,26 @@ example :
     isRc (decode env nullBackend i [f, g] 84 false) (-EBADHEADER) ∧
     isRc (decode env nullBackend i [g, f] 84 false) (-EBADHEADER) ∧
     isOk (decode env nullBackend i [f, g] 84 true) [1, 2, 3, 4] ∧
-    isRc (decode env nullBackend i [g, g] 84 true) (-EINSUFFFRAGS) := by
+    isRc (decode env nullBackend i [g, g] 84 true) (-EINSUFFFRAGS) ∧
+    isRc (decode env nullBackend i [f] 83 false) (-EBADHEADER) ∧
+    isRc (decode env nullBackend i [f] 83 true) (-EBADHEADER) ∧
+    isRc (reconstruct env nullBackend i [f] 83 1) (-EBADHEADER) := by
   decide +kernel
 
 #print axioms accept_iff
 #print axioms metadata_gate
 #print axioms decode_gate
 #print axioms reconstruct_gate
+#print axioms decode_length_gate
+#print axioms reconstruct_length_gate
+#print axioms fits_iff
 #print axioms reconstruct_host_order
 #print axioms decode_host_order'
 #print axioms decode_host_order
 #print axioms decode_host_order_forced
 #print axioms decode_host_order_forced_cases
 #print axioms fresh_accepted
+#print axioms fresh_fits
+#print axioms fresh_fits_of_le
 #print axioms crc_table
 end LecProps.C09
